@@ -178,7 +178,9 @@ def check_deferral(tr, case, stats, script_steps=True):
         for c in rest:
             if c == r["cmd"]:
                 continue
-            if not RETRACT.match(c):
+            # leak detection: a configured code or a script line has no business here (other generated commands - retraction,
+            # recovery, whatever a different implementation may add - are not this property's concern)
+            if tokenize(c)[0] in ext or c in enter or c in exit_:
                 out.append(viol(tr, r, "unexpected-command", "%r in the output of %r (episode open: %s): %r" % (c, r["cmd"], r["open_after"], cmds)))
     for c, n in delivered.items():
         if n > 1:
@@ -316,9 +318,10 @@ class C15(Monitor):
                 continue
             stats["c15_script_hook_calls"] += 1
             res = r.get("script_result")
+            contributed = res is not None and any(bool(x) for x in (res if isinstance(res, (tuple, list)) else [res]))
             if r.get("expect_prefix"):
                 stats["c15_cleanups_expected"] += 1
-                if not (isinstance(res, tuple) and len(res) == 2 and res[1] is None and isinstance(res[0], list) and res[0]):
+                if not (isinstance(res, tuple) and len(res) >= 2 and not res[1] and isinstance(res[0], (list, tuple)) and res[0]):
                     v.append(viol(tr, r, "cleanup-missing", "an episode is open at the end of the print, the hook returned %r" % (res,)))
                     continue
                 hs = r["hs"]
@@ -334,7 +337,7 @@ class C15(Monitor):
                     nontrivial = True
             else:
                 stats["c15_calls_expected_none"] += 1
-                if res is not None:
+                if contributed:
                     v.append(viol(tr, r, "hook-contributed-unexpectedly", "type=%r name=%r (print active: %s, episode open: %s) returned %r"
                                   % (r["stype"], r["sname"], r.get("open_before"), r["open_before"], res)))
         if tr.exc is not None:
